@@ -36,7 +36,7 @@ def core (s : St) : Core := ⟨s.waiter, s.hpc, s.spc, s.messages⟩
 macro "frame" : tactic =>
   `(tactic| ((try simp only []); (repeat' split) <;> (first | rfl | (simp; done) | (simp; rfl) | (simp_all; done))))
 
-@[simp] theorem core_wakeP (s : St) (i) : core (wakeP s i) = core s := by
+@[simp] theorem core_wakeP (s : St) (i b) : core (wakeP s i b) = core s := by
   unfold wakeP; frame
 
 @[simp] theorem core_protoResumeNoParse (s : St) : core (protoResumeNoParse s) = core s := by
@@ -333,7 +333,7 @@ theorem runProg_np : ∀ (fuel : Nat) (s : St) (prog : Prog), NPres s (runProg f
         · split
           · exact (NPres.of_core (by simp) : NPres s (updCur s _)).trans (finishH_np _ _)
           · refine NPres.trans ?_ (ih _ _)
-            exact NPres.of_core (by simp)
+            exact NPres.of_core (by split <;> simp)
       · -- write
         split
         · exact ih _ _
@@ -369,7 +369,9 @@ theorem handlerStart_np (fuel : Nat) (s : St) (m : QMsg) : NPres s (handlerStart
         · exact (h0.trans (NPres.of_core (by simp))).trans (finishH_np _ _)
         · refine (h0.trans ?_).trans (runProg_np _ _ _)
           exact NPres.of_waiter rfl
-      · exact h0.trans (finishFresh_np _ _ _ _)
+      · split
+        · exact h0.trans (finishH_np _ _)
+        · exact h0.trans (finishFresh_np _ _ _ _)
     · refine (h0.trans ?_).trans (runProg_np _ _ _)
       exact NPres.of_waiter rfl
 
@@ -449,6 +451,10 @@ theorem startRun_winv : ∀ (fuel : Nat) (s : St) (k : SCont),
       | cancelled =>
         try simp only []
         exact WInv.of_np (fun hp => hn ((forceClose_step0 { s with hpc := .idle }).np.2 hp))
+      | crashed =>
+        try simp only []
+        have := (forceClose_step0 { s with hpc := .idle }).keep hn rfl
+        exact ih _ _ this.1 (fun _ => this.2)
       | resp ka reset =>
         try simp only []
         split
@@ -681,7 +687,7 @@ theorem QInv.of_q4 {s s' : St} (h : q4 s' = q4 s) (hq : QInv s) : QInv s' := by
 
 @[simp] theorem q4_setP (s : St) (i p) : q4 (setP s i p) = q4 s := rfl
 @[simp] theorem q4_pushCb (s : St) (c) : q4 (pushCb s c) = q4 s := rfl
-@[simp] theorem q4_wakeP (s : St) (i) : q4 (wakeP s i) = q4 s := by unfold wakeP; frame
+@[simp] theorem q4_wakeP (s : St) (i b) : q4 (wakeP s i b) = q4 s := by unfold wakeP; frame
 @[simp] theorem q4_protoResumeNoParse (s : St) : q4 (protoResumeNoParse s) = q4 s := by
   unfold protoResumeNoParse; frame
 @[simp] theorem q4_payloadEvent (s : St) (i c e x) : q4 (payloadEvent s i c e x) = q4 s := by
